@@ -100,9 +100,14 @@ Definition occ_matches_global (w : mws) (name : list N) (F : list N) (g : gentry
     end
   end.
 
-Definition references_at (mode : refmode) (w : mws) (f : list N) (fi : fileinfo) (name : list N) (line col : Z)
+(* FindReferences for a resolved target.  A found location inside the definition's range is skipped (the definition
+   itself is reported separately): in the definition's file only (fix C06-same-pos-other-file; before it the range was
+   compared without the file name, `references_of_target_fx no_fixes`) *)
+Definition skip_define (F : list N) (d : loc) (X : list N) (l : loc) : bool := beq_bytes X F && inside d l.
+
+Definition references_of_target (mode : refmode) (w : mws) (f : list N) (fi : fileinfo) (name : list N) (t : target)
   : option (list floc) :=
-  match resolve_at w f fi name line col with
+  match t with
   | TLocal v =>
     let d := v_loc v in
     Some ((f, d) :: map (fun o => (f, o_loc o))
@@ -125,17 +130,65 @@ Definition references_at (mode : refmode) (w : mws) (f : list N) (fi : fileinfo)
     | WAmbig => if needs_ws then None else
       Some (head ++ flat_map (fun x => map (fun o => (fst x, o_loc o))
                                            (filter (fun o => occ_matches_global w name F g (fst x) (snd x) o
-                                                             && negb (inside d (o_loc o)))
+                                                             && negb (skip_define F d (fst x) (o_loc o)))
                                                    (fi_occs (snd x)))) files)
     | _ =>
       Some (head ++ flat_map (fun x => map (fun o => (fst x, o_loc o))
                                            (filter (fun o => occ_matches_global w name F g (fst x) (snd x) o
-                                                             && negb (inside d (o_loc o)))
+                                                             && negb (skip_define F d (fst x) (o_loc o)))
                                                    (fi_occs (snd x)))) files)
     end
   | TNone => Some []
   | TAmbig => None
   end.
+
+Definition references_at (mode : refmode) (w : mws) (f : list N) (fi : fileinfo) (name : list N) (line col : Z)
+  : option (list floc) :=
+  references_of_target mode w f fi name (resolve_at w f fi name line col).
+
+(* the same with the repairs as a parameter *)
+Definition skip_define_fx (fx : bfixes) (F : list N) (d : loc) (X : list N) (l : loc) : bool :=
+  (negb (bf_same_pos fx) || beq_bytes X F) && inside d l.
+
+Definition references_of_target_fx (fx : bfixes) (mode : refmode) (w : mws) (f : list N) (fi : fileinfo) (name : list N)
+           (t : target) : option (list floc) :=
+  match t with
+  | TLocal v =>
+    let d := v_loc v in
+    Some ((f, d) :: map (fun o => (f, o_loc o))
+                        (filter (fun o => occ_matches_local name d o && negb (inside d (o_loc o))) (fi_occs fi)))
+  | TGlobal F g =>
+    let d := g_loc g in
+    let files := match mode with MHighlight => [(f, fi)] | _ => w end in
+    let head := match mode with
+                | MHighlight => if beq_bytes F f then [(F, d)] else []
+                | _ => [(F, d)]
+                end in
+    let needs_ws := existsb (fun x => match find_global_var (fi_globals (snd x)) name with
+                                      | Some _ => false
+                                      | None => existsb (fun o => revisited o && beq_bytes (o_name o) name
+                                                                  && match o_res o with None => true | Some _ => false end)
+                                                        (fi_occs (snd x))
+                                      end) files in
+    match ws_global w name with
+    | WAmbig => if needs_ws then None else
+      Some (head ++ flat_map (fun x => map (fun o => (fst x, o_loc o))
+                                           (filter (fun o => occ_matches_global w name F g (fst x) (snd x) o
+                                                             && negb (skip_define_fx fx F d (fst x) (o_loc o)))
+                                                   (fi_occs (snd x)))) files)
+    | _ =>
+      Some (head ++ flat_map (fun x => map (fun o => (fst x, o_loc o))
+                                           (filter (fun o => occ_matches_global w name F g (fst x) (snd x) o
+                                                             && negb (skip_define_fx fx F d (fst x) (o_loc o)))
+                                                   (fi_occs (snd x)))) files)
+    end
+  | TNone => Some []
+  | TAmbig => None
+  end.
+
+Definition references_at_fx (fx : bfixes) (mode : refmode) (w : mws) (f : list N) (fi : fileinfo) (name : list N)
+           (line col : Z) : option (list floc) :=
+  references_of_target_fx fx mode w f fi name (resolve_at w f fi name line col).
 
 (* hover: does the label say `local` *)
 Inductive hoverres := HLocal | HGlobal | HSkip.
